@@ -289,7 +289,11 @@ func (ir *ifdReader) readMakerNotes(t Tag) {
 				return
 			}
 			if nikon.IsNikonMkNoteHeaderBytes(buf[:5]) {
-				ir.Exif.ImageType = imagetype.ImageNEF
+				if ir.Exif.ImageType == imagetype.ImageTiff {
+					// a Nikon maker note refines a plain TIFF into a NEF file; a JPEG, HEIF or
+					// other container written by a Nikon camera keeps the type it was sniffed as
+					ir.Exif.ImageType = imagetype.ImageNEF
+				}
 				if byteOrder := utils.BinaryOrder(buf[10:14]); byteOrder != utils.UnknownEndian {
 					err = ir.readIfdHeader(ifds.NewIFD(byteOrder, ifds.MknoteIFD, t.IfdIndex, t.ValueOffset, t.ValueOffset+byteOrder.Uint32(buf[14:18])))
 					if err != nil {
